@@ -22,7 +22,7 @@ EXTENDS Naturals, Sequences, FiniteSets, TLC
 
 CONSTANTS MaxLen,       \* longest member tuple
           ExcKinds,     \* exception classes a member may reject with
-          Suppressed,   \* classes the loop swallows; "ALL" = every Exception
+          Suppressed,   \* set of classes the loop swallows; containing "ALL" = every Exception
           Rotation      \* "none_first" | "last_first" | "none"
 
 \* A member is [none |-> BOOLEAN, out |-> "ok" | exception class]; for the None member the
@@ -30,18 +30,24 @@ CONSTANTS MaxLen,       \* longest member tuple
 Outcomes == {"ok"} \cup ExcKinds
 Member == [none : BOOLEAN, out : Outcomes]
 
-MemberOut(m, xnone) == IF m.none THEN (IF xnone THEN "ok" ELSE "ValueError") ELSE m.out
+\* NoneTypeUnmarshaller accepts exactly None; on the marshal side the None member's routine is a
+\* pass-through whose outcome is whatever it is (free, like any other member).
+MemberOut(m, xn, d) ==
+  IF m.none /\ d = "unmarshal" THEN (IF xn THEN "ok" ELSE "ValueError") ELSE m.out
+Outs(s, xn, d) == [j \in 1..Len(s) |-> MemberOut(s[j], xn, d)]
 
 HasNone(ms) == \E i \in 1..Len(ms) : ms[i].none
 
 (************************* reference layer *********************************)
 \* result: [k |-> "ok", by |-> index of the member whose result is returned (0 = the None itself)]
 \*      or [k |-> "raised", e |-> "ValueError"]
-UnionRef(ms, xnone) ==
-  IF xnone /\ HasNone(ms) THEN [k |-> "ok", by |-> 0]
-  ELSE LET acc == {i \in 1..Len(ms) : MemberOut(ms[i], xnone) = "ok"} IN
+\* outs: the member routines' outcomes on the input, in declared order ("ok" or an exception class)
+UnionRefO(hasNone, outs, xn) ==
+  IF xn /\ hasNone THEN [k |-> "ok", by |-> 0]
+  ELSE LET acc == {i \in 1..Len(outs) : outs[i] = "ok"} IN
        IF acc = {} THEN [k |-> "raised", e |-> "ValueError"]
        ELSE [k |-> "ok", by |-> CHOOSE i \in acc : \A j \in acc : i <= j]
+UnionRef(s, xn, d) == UnionRefO(HasNone(s), Outs(s, xn, d), xn)
 
 (******************** implementation-shaped layer **************************)
 VARIABLES ms, xnone, dir,   \* the case: members, whether the input is None, direction
@@ -49,7 +55,7 @@ VARIABLES ms, xnone, dir,   \* the case: members, whether the input is None, dir
           pc, i, result
 vars == <<ms, xnone, dir, stack, pc, i, result>>
 
-IsSuppressed(e) == Suppressed = "ALL" \/ e \in Suppressed
+IsSuppressed(e) == "ALL" \in Suppressed \/ e \in Suppressed
 
 NoneIdx(s) == {j \in 1..Len(s) : s[j].none}
 
@@ -85,10 +91,10 @@ Shortcut ==   \* UnionMarshaller: `if self.nullable and val is None: return val`
 Try ==
   /\ pc = "call" /\ i <= Len(stack)
   /\ ~(dir = "marshal" /\ xnone /\ HasNone(ms))
-  /\ LET o == MemberOut(ms[stack[i]], xnone) IN
+  /\ LET o == MemberOut(ms[stack[i]], xnone, dir) IN
      IF o = "ok" THEN
-        \* the None member returns None itself: reported as by=0 when the input is None
-        /\ result' = [k |-> "ok", by |-> IF ms[stack[i]].none THEN 0 ELSE stack[i]]
+        \* the None member given None returns None itself: reported as by=0
+        /\ result' = [k |-> "ok", by |-> IF ms[stack[i]].none /\ xnone THEN 0 ELSE stack[i]]
         /\ pc' = "done" /\ i' = i
      ELSE IF IsSuppressed(o) THEN
         /\ i' = i + 1 /\ pc' = pc /\ result' = result
@@ -105,7 +111,7 @@ Next == Build \/ Shortcut \/ Try \/ Exhausted
 Spec == Init /\ [][Next]_vars /\ WF_vars(Next)
 
 (***************************** properties **********************************)
-Refines == pc = "done" => result = UnionRef(ms, xnone)
+Refines == pc = "done" => result = UnionRef(ms, xnone, dir)
 Terminates == <>(pc = "done")
 NoneHonoured == (pc = "done" /\ xnone /\ HasNone(ms)) => result = [k |-> "ok", by |-> 0]
 OnlyValueError == (pc = "done" /\ result.k = "raised") => result.e = "ValueError"
